@@ -54,7 +54,7 @@ def C(rule, maxSize=0, maxBackups=0, days=0, gzip=False, pre=(), precur=0, names
 def mc(ctx):
     def rec(rule, maxSize, maxBackups, days, gzip):
         return '[rule |-> "%s", maxSize |-> %d, maxBackups |-> %d, days |-> %d, gzip |-> %s, slack |-> %d]' % (
-            rule, maxSize, maxBackups, days, "TRUE" if gzip else "FALSE", 24 if rule == "daily" else 0)
+            rule, maxSize, maxBackups, days, "TRUE" if gzip else "FALSE", 0)
     confs = [rec("size", 4, 0, 0, False), rec("size", 4, 2, 0, False), rec("size", 4, 1, 2, True),
              rec("size", 0, 0, 2, False), rec("daily", 0, 0, 2, True), rec("daily", 0, 0, 0, False)]
     pre = ('<<[ts |-> -3, ageh |-> 73, recs |-> <<101, 102>>, gz |-> FALSE], [ts |-> -2, ageh |-> 49, recs |-> <<103>>, '
@@ -85,10 +85,11 @@ def record(ctx, binp, label, cases_path, shards=16):
     if bad:
         raise core.Infra("C19 recorder reported verdicts (it must only record): %s" % bad[:2])
     hists = []
-    for i in range(shards):
-        p = "%s-%d.ndjson" % (prefix, i)
-        if not os.path.exists(p):
-            raise core.Infra("trace file missing: " + p)
+    import glob
+    paths = sorted(glob.glob(prefix + "-*.ndjson"))      # core may cap the number of shards
+    if not paths:
+        raise core.Infra("no trace file written: " + prefix)
+    for p in paths:
         cur = None
         with open(p) as f:
             for line in f:
@@ -120,9 +121,6 @@ def describe(h, k, failed):
     ev = json.loads(h[k])
     evs = [json.loads(x) for x in h[:k + 1]]
     nrot = 0
-    for a, b in zip(evs, evs[1:]):
-        if "files" in a and "files" in b:
-            pass
     # number of rotations seen before the rejected step (class of the failing case)
     seen = {f["ts"] for f in init.get("files", [])}
     for e in evs[1:k]:
@@ -144,9 +142,9 @@ def tspec():
 def plans(ctx):
     S = [8, 32, 64, 65]                 # small, half, max, max+1 for maxSize 64
     pre3 = [73, 49, 1]                  # for days=2 (48 h): two older, one young
-    size_confs = [C("size", 64), C("size", 64, maxBackups=2, pre=pre3), C("size", 64, days=2, gzip=True, pre=pre3),
+    size_confs = [C("size", 64), C("size", 64, maxBackups=2, pre=pre3), C("size", 64, days=2, gzip=True, pre=[73, 49, 47, 1]),
                   C("size", 64, maxBackups=1, days=2, gzip=True, pre=[200, 47], precur=20)]
-    daily_confs = [C("daily"), C("daily", days=2, gzip=True, pre=[96, 72, 24]), C("daily", days=1, pre=[48, 24], precur=20)]
+    daily_confs = [C("daily"), C("daily", days=2, gzip=True, pre=[96, 72, 48, 24]), C("daily", days=1, pre=[48, 24], precur=20)]
     real_size = [C("size", 64, maxBackups=2, pre=[49, 1], names="real"), C("size", 64, days=2, gzip=True, pre=[49, 1], names="real")]
     real_mb = [C("size", MB, maxBackups=1, gzip=True, names="real"), C("size", MB, names="real")]
     real_daily = [C("daily", days=2, gzip=True, pre=[96, 24], names="real"), C("daily", names="real", delim="_")]
